@@ -268,22 +268,36 @@ def run(R, env):
                 for bi_, t_, a_ in call_sites(c_, lambda nm: True):
                     if prog.body(t_.get("rkey") or "") is not None and any(ns_of(prog, x) == "inflight" for x in a_ if x[0] == "item") and any(s_[0] == "closure" for x in a_ for s_ in subterms(x)):
                         deep_scan.append((p_[0][1], t_, a_))
+                    elif (call_name(t_) or "").endswith("Iterator::filter") and len(a_) == 2 and a_[1][0] == "closure" and any(s_[0] == "call" and s_[1].startswith("cw_storage_plus::Map::") and s_[2] and ns_of(prog, s_[2][0]) == "inflight" for s_ in subterms(a_[0])):
+                        # INFLIGHT_PACKETS.range(..)...filter(|p| eligible(p)): the std spelling of the filtered scan
+                        deep_scan.append((p_[0][1], t_, a_))
             if deep_scan:
                 R.set_undecided(RECOVER_SHAPE, "recover is restructured into helpers; only the in-line selection/summation idiom is modelled")
                 pcalls = deep_scan
         R.ob("C07.R5", "recover:uses-filtered-pagination", len(pcalls) == 1, "found %d paginated scans of INFLIGHT_PACKETS with a filter in the permissionless path" % len(pcalls), fn=hk)
+        from engine.analysis import forms as _forms5
         for bi, t, args in pcalls:
-            clo = [s_ for a in args for s_ in subterms(a) if s_[0] == "closure"][0]
-            cc = closure_ctx(prog, clo, params={2: ("pkt",)})
-            # the value the filter compares the packet's receiver with (whatever the capture is called)
-            rcv = None
-            if cc is not None:
-                pool = [x for _, atom in cc.atoms() for x in subterms(atom[1])] + list(subterms(cc.T.return_term()))
-                for x in pool:
-                    if x[0] == "call" and x[1] in EQ and len(x[2]) == 2:
-                        for u, v in ((x[2][0], x[2][1]), (x[2][1], x[2][0])):
-                            if norm(u) == norm(("field", ("pkt",), "receiver")):
-                                rcv = v
+            clo = args[1] if (call_name(t) or "").endswith("Iterator::filter") else [s_ for a in args for s_ in subterms(a) if s_[0] == "closure"][0]
+            # the value the filter compares the packet's receiver with (whatever the capture is called);
+            # the element is the packet, or the (key, packet) pair of a raw range scan
+            rcv, cc = None, None
+            for binding in (("pkt",), ("tuple", (("key",), ("pkt",)))):
+                cc = closure_ctx(prog, clo, params={2: binding})
+                if cc is not None:
+                    pool = [x for _, atom in cc.atoms() for x in subterms(atom[1])] + list(subterms(cc.T.return_term()))
+                    for x in list(pool):
+                        # (the predicate may be a named helper: `|p| is_recoverable(p, receiver)`)
+                        hb_ = prog.body(x[1]) if x[0] == "call" else None
+                        if hb_ is not None:
+                            sc_ = cc.sub(hb_, params={i_ + 1: a_ for i_, a_ in enumerate(x[2])})
+                            pool += [y for _, atom in sc_.atoms() for y in subterms(atom[1])] + list(subterms(sc_.T.return_term()))
+                    for x in pool:
+                        if x[0] == "call" and x[1] in EQ and len(x[2]) == 2:
+                            for u, v in ((x[2][0], x[2][1]), (x[2][1], x[2][0])):
+                                if norm(u) == norm(("field", ("pkt",), "receiver")):
+                                    rcv = v
+                if rcv is not None:
+                    break
             rgood = rcv is not None and C02.recover_receiver_ok(prog, rcv)
             R.ob("C07.R5", "recover:filter-receiver-is-validated-receiver", rgood, "the filter compares with %s" % fmt(rcv or ("none",))[:120], loc=h.body.loc(bi), fn=hk)
             table = {}
@@ -328,17 +342,29 @@ def run(R, env):
         if not ok:
             # iterator spelling: ids.into_iter().map(|id| { let p = load(id)?; if p.receiver != r { return Err } Ok(p) }).collect::<Result<_,_>>()?
             # — the test guards every Ok of the closure that loads the packet, and the collected Result is `?`-propagated
-            for c_, p_ in inline_walk(prog, wf, 1):
+            walked = list(inline_walk(prog, wf, 3))
+            for c_, p_ in walked:
                 if c_.body.kind != "closure" or not p_:
                     continue
                 if not any(o_["op"] == "load" and ns_of(prog, o_["args"][0]) == "inflight" for o_ in __import__("engine.analysis", fromlist=["storage_ops"]).storage_ops(c_)):
                     continue
                 f2 = []
                 ok2, off2 = guarded(c_, Guard("same-receiver", boolean=recv_guard), prog, 1, f2)
-                drv = [a_ for bi_, t_, a_ in call_sites(wf, lambda nm: nm.endswith("Iterator::map")) if len(a_) == 2 and a_[1][0] == "closure" and a_[1][1] == c_.body.key]
-                coll = [1 for bi_, atom_ in wf.atoms() if any(s_[0] == "call" and s_[1].endswith("Iterator::collect") and drv and norm(s_[2][0]) == norm(("call", "std::iter::Iterator::map", drv[0])) for s_ in subterms(atom_[1]))]
-                if ok2 and f2 and drv and coll:
-                    ok, off, found = True, None, f2
+                if not (ok2 and f2):
+                    continue
+                # the closure drives ids.map(closure).collect::<Result<_, _>>() whose Err is propagated: in the
+                # handler itself, or in a helper that returns the collected Result and is `?`-ed by the handler
+                for pc, pp in walked:
+                    drv = [a_ for bi_, t_, a_ in call_sites(pc, lambda nm: nm.endswith("Iterator::map")) if len(a_) == 2 and a_[1][0] == "closure" and a_[1][1] == c_.body.key]
+                    if not drv:
+                        continue
+                    mt_ = norm(("call", "std::iter::Iterator::map", drv[0]))
+                    is_coll = lambda s_: s_[0] == "call" and s_[1].endswith("Iterator::collect") and norm(s_[2][0]) == mt_
+                    in_atom = any(is_coll(s_) for bi_, atom_ in pc.atoms() for s_ in subterms(atom_[1]))
+                    in_ret = pc.body.key != wf.body.key and any(is_coll(s_) for s_ in subterms(pc.T.return_term()))
+                    tried = in_ret and any(s_[0] == "call" and s_[1] == pc.body.key for bi_, atom_ in wf.atoms() if atom_[0] == "variant" for s_ in subterms(atom_[1]))
+                    if in_atom or tried:
+                        ok, off, found = True, None, f2
         R.ob("C07.R6", "recover:forced:receiver-mismatch-is-an-error", ok, "forced recovery can succeed with a selected packet of another receiver: %s" % (off,), fn=hk, found=found)
         loads = [o for o in storage_ops_deep(prog, wf, env.depth) if o["op"] == "load" and ns_of(prog, o["args"][0]) == "inflight"]
         good = len(loads) >= 1 and all(o["args"][2][0] == "payload" and any(shared.selected_packets_pred(s_) for s_ in subterms(o["args"][2])) for o in loads)
